@@ -48,6 +48,8 @@ pub struct CallRec {
     pub keyspace: String,
     /// (id, ts) the call was asked to write (mutating calls)
     pub items: Vec<(Key, HLCTimestamp)>,
+    /// payload of each item (None for tombstones / removals)
+    pub datas: Vec<Option<Vec<u8>>>,
     /// how many of them were applied
     pub applied: usize,
     pub ok: bool,
@@ -209,6 +211,7 @@ impl SimStorage {
                 kind,
                 keyspace: ks.to_string(),
                 items: items.iter().map(|(k, t, _, _)| (*k, *t)).collect(),
+                datas: items.iter().map(|(_, _, d, _)| d.clone()).collect(),
                 applied: limit,
                 ok,
             });
